@@ -9,7 +9,7 @@ from __future__ import annotations
 
 import z3
 
-from pyvc.values import forall, ANY, BOOL, FUNC, INT, LIST, REF, Ty, fresh
+from pyvc.values import forall, ANY, BOOL, CALLREF, FUNC, INT, LIST, REF, Ty, fresh
 
 # ---------------------------------------------------------------------------
 # static types of the object fields (by `Class.field`, falling back to `field`)
@@ -34,9 +34,9 @@ FIELD_TYPES = {
     "Dispatcher._machine_next_available_time": LIST(INT),
     "Dispatcher._job_next_operation_index": LIST(INT),
     "Dispatcher._job_next_available_time": LIST(INT),
-    "Dispatcher.ready_operations_filter": FUNC,
+    "Dispatcher.ready_operations_filter": CALLREF("abstract:ready_operations_filter"),
     "Dispatcher.subscribers": LIST(REF("DispatcherObserver")),
-    "Dispatcher._cache": ANY,
+    "Dispatcher._cache": Ty("cachedict"),
     "DispatcherObserver.dispatcher": REF("Dispatcher"),
     "HistoryObserver.history": LIST(REF("ScheduledOperation"), "o"),
     "RewardObserver.rewards": LIST(INT, "o"),
@@ -65,6 +65,24 @@ def bv(name):
     quantifier instantiation.  Names are only ever used bound (program values get
     `name!N` constants), and nested spec quantifiers use different names."""
     return z3.Int("?" + name)
+
+
+# the methods decorated with @_dispatcher_cache (checked against the program on every run by
+# the engine: an access with another key is outside the subset)
+CACHED = ["current_time", "available_operations", "raw_ready_operations", "unscheduled_operations",
+          "scheduled_operations", "available_machines", "available_jobs", "completed_operations",
+          "uncompleted_operations", "ongoing_operations"]
+
+
+def cache_fields():
+    out = []
+    for k in CACHED:
+        out += [f"$cache_has:{k}", f"$cache_val:{k}"]
+    return out
+
+
+def cache_empty(h, d):
+    return z3.And([h.get(f"$cache_has:{k}", d) == 0 for k in CACHED])
 
 
 def imp(a, b):
@@ -295,6 +313,7 @@ def reach(h, d):
                                                                       D.cumS(m + 1) == D.cumS(m) + D.nS(m))))),
         ("R9-count-per-job", z3.And(D.cumK(0) == 0, forall([j], imp(rng(j, 0, it.J),
                                                                   D.cumK(j + 1) == D.cumK(j) + D.kj(j))))),
+        ("R9-count-per-job-monotone", forall([j, p], imp(z3.And(0 <= j, j <= p, p <= it.J), D.cumK(j) <= D.cumK(p)))),
         ("R9-counts-agree", D.cumS(D.M) == D.cumK(it.J)),
         ("R9-deficit-monotone", forall([j, p], imp(z3.And(0 <= j, j <= p, p <= it.J),
                                                    it.cumL(j) - D.cumK(j) <= it.cumL(p) - D.cumK(p)))),
@@ -408,6 +427,7 @@ _RELEVANT = {
     "R8-job-ready-0": _SHAPE + ["R8-job-ready-0", "R8-job-ready"],
     "R9-count-per-machine": _SHAPE + ["R9-count-per-machine"],
     "R9-count-per-job": _SHAPE + ["R9-count-per-job"],
+    "R9-count-per-job-monotone": _SHAPE + ["R9-count-per-job", "R9-count-per-job-monotone"],
     "R9-counts-agree": _SHAPE + ["R9-count-per-machine", "R9-count-per-job", "R9-counts-agree"],
     "R9-deficit-monotone": _SHAPE + ["R9-count-per-job", "R9-deficit-monotone", "inst-cum", "inst-cum-monotone"],
     "R-subscribers": _SHAPE + ["R-subscribers"],
@@ -434,6 +454,9 @@ def relevance(obligation_name, contract=None):
         return None
 
     def keep(tag):
+        if tag.startswith("cache-entry-current:"):
+            # the cache invariant is only needed to re-establish itself / by the wrapper
+            return tag in wanted or goal.startswith("cache-entry-current")
         b = _base(tag)
         return b not in _FAMILY or b in wanted
     return keep
